@@ -157,6 +157,35 @@ class Ret(Exception):
         self.v = v
 
 
+class Break(Exception):
+    pass
+
+
+class Continue(Exception):
+    pass
+
+
+def subst(t, m, memo=None):
+    """rebuild term t with the sub-terms in m replaced (through the canonicalising constructors)"""
+    memo = memo if memo is not None else {}
+    if isinstance(t, list):
+        return [subst(x, m, memo) for x in t]
+    if not isinstance(t, N):
+        return t
+    if t in m:
+        return m[t]
+    r = memo.get(id(t))
+    if r is None:
+        if t.op in ('const', 'sym'):
+            r = t
+        else:
+            args = [subst(x, m, memo) for x in t.a]
+            r = mk(t.op, *args) if t.op in COMM or t.op in ('shl', 'shr', 'sub', 'mod') else node(t.op, *args)
+            r = m.get(r, r)
+        memo[id(t)] = r
+    return r
+
+
 class TermExec:
     """evaluates straight-line code; loops and switches are driven by the caller"""
 
@@ -166,11 +195,19 @@ class TermExec:
         self.env = {}
         self.hooks = hooks or {}
         self.depth = 0
+        self.assume = {}       # term -> constant it is assumed equal to (case split by the caller)
+        self.fuel = 100000     # loop iterations
 
     def bind(self, vid, val):
         self.env[vid] = val
 
     def ev(self, e):
+        v = self._ev(e)
+        if self.assume and isinstance(v, N):
+            v = self.assume.get(v, v)
+        return v
+
+    def _ev(self, e):
         k = e['k']
         if k in ('int', 'bool'):
             return C(int(e['cv']))
@@ -202,6 +239,15 @@ class TermExec:
                 return mk('xor', self.ev(e['e']), C(MASK64))
             if e['op'] == '-':
                 return mk('sub', C(0), self.ev(e['e']))
+            if e['op'] in ('++', '--'):
+                cur = self.ev(e['e'])
+                nxt = mk('add', cur, C(1)) if e['op'] == '++' else mk('sub', cur, C(1))
+                self.store(e['e'], nxt)
+                return cur if e.get('post') else nxt
+            if e['op'] == '!':
+                v = self.ev(e['e'])
+                if v.op == 'const':
+                    return C(int(v.a[0] == 0))
             raise Unsupported('unary ' + e['op'])
         if k == 'bin':
             op = e['op']
@@ -245,6 +291,9 @@ class TermExec:
         if op == '%':
             return mk('mod', a, b)
         if op in ('<', '<=', '>', '>=', '==', '!='):
+            if a.op == 'const' and b.op == 'const':
+                x, y = a.a[0], b.a[0]
+                return C(int({'<': x < y, '<=': x <= y, '>': x > y, '>=': x >= y, '==': x == y, '!=': x != y}[op]))
             return node('cmp', op, a, b)
         raise Unsupported('operator ' + op)
 
@@ -277,6 +326,7 @@ class TermExec:
         args = [self.ev(a) for a in e['args']]
         sub = TermExec(self.db, callee, self.hooks)
         sub.depth = self.depth + 1
+        sub.assume = self.assume
         obj = self.ev(e['obj']) if 'obj' in e else None
         sub.this = obj
         for p, a in zip(callee['params'], args):
@@ -313,8 +363,64 @@ class TermExec:
             raise Ret(self.ev(s['e']) if s.get('e') is not None else None)
         elif k == 'null':
             pass
+        elif k == 'if':
+            if self.truth(s['cond']):
+                self.stmt(s['then'])
+            elif s.get('else') is not None:
+                self.stmt(s['else'])
+        elif k in ('for', 'while'):
+            if k == 'for' and s.get('init') is not None:
+                self.stmt(s['init'])
+            while s.get('cond') is None or self.truth(s['cond']):
+                self.fuel -= 1
+                if self.fuel < 0:
+                    raise Unsupported('loop does not terminate within the evaluation budget')
+                try:
+                    self.stmt(s['body'])
+                except Break:
+                    break
+                except Continue:
+                    pass
+                if k == 'for' and s.get('inc') is not None:
+                    self.ev(s['inc'])
+        elif k == 'switch':
+            v = self.ev(s['cond'])
+            if not (isinstance(v, N) and v.op == 'const'):
+                raise Unsupported('switch on a non-constant value ' + show(v)[:60])
+            started = False
+            labels = ir.stmt_list(s['body'])
+            has_match = any(self._label_matches(cs, v.a[0]) for cs in labels)
+            try:
+                for cs in labels:
+                    nd = cs
+                    while nd['k'] in ('case', 'default'):
+                        if not started and ((nd['k'] == 'case' and ir.const_of(nd['v']) == v.a[0]) or (nd['k'] == 'default' and not has_match)):
+                            started = True
+                        nd = nd['sub']
+                    if started:
+                        self.stmt(nd)
+            except Break:
+                pass
+        elif k == 'break':
+            raise Break()
+        elif k == 'continue':
+            raise Continue()
         else:
             raise Unsupported('statement ' + k)
+
+    @staticmethod
+    def _label_matches(cs, val):
+        while cs['k'] in ('case', 'default'):
+            if cs['k'] == 'case' and ir.const_of(cs['v']) == val:
+                return True
+            cs = cs['sub']
+        return False
+
+    def truth(self, cond):
+        v = self.ev(cond)
+        if not (isinstance(v, N) and v.op == 'const'):
+            raise Unsupported('branch on a non-constant condition ' + show(v)[:80])
+        return v.a[0] != 0
 
 
 def show(t, depth=0):
